@@ -8,7 +8,7 @@
    finiteness is a floating-point notion (tested). *)
 From Coq Require Import Reals List ZArith Bool.
 Import ListNotations.
-From MPC Require Import Num Species RInst RefEnergy TransportLib GenTransport C13_proofs.
+From MPC Require Import Num Species RInst RefEnergy TransportLib GenTransport Transport C13_proofs.
 Open Scope R_scope.
 
 Section Dispatch.
@@ -123,3 +123,29 @@ Theorem C13_guard_selects :
   filter (fun ls => Qin_guard (fst ls) (snd ls)) consumed_orders = [(1,6);(1,7);(2,5);(2,6);(3,4);(3,5)]%nat.
 Proof. split; [exact (proj1 guard_selects) | exact (proj1 (proj2 guard_selects))]. Qed.
 Print Assumptions C13_recursion_form.
+
+(* the matrices handed to q / qhat (model Transport.Qmix of functions_transport.Qij_mix, tied by comparing whole matrices):
+   symmetric, and attached to the species, not to list positions *)
+Theorem C13_Qmix_symmetric : forall (U : Units R) (G : R -> R) (sps : list (species R)) (nd : list R) (l s : nat) (T : R) (i j : nat),
+  (forall sp : species R, is_e sp = true -> charge_number sp = (-1)%Z) ->
+  (sname (nth i sps (dummy_species 0)) = 0%nat -> sname (nth j sps (dummy_species 0)) = 0%nat -> nth i nd 0 = nth j nd 0) ->
+  Qmix (RNumG G) U sps nd l s T i j = Qmix (RNumG G) U sps nd l s T j i.
+Proof.
+  intros U G sps nd l s T i j He Hn. unfold Qmix. apply C13_Qij_symmetric; [apply He | apply He | exact Hn].
+Qed.
+
+Lemma nth_map_seq {B} (f : nat -> B) (nb k : nat) (d : B) : (k < nb)%nat -> nth k (map f (seq 0 nb)) d = f k.
+Proof.
+  intros Hk. rewrite (nth_indep (map f (seq 0 nb)) d (f 0%nat)) by (rewrite map_length, seq_length; exact Hk).
+  rewrite (map_nth f (seq 0 nb) 0%nat k), seq_nth by exact Hk. reflexivity.
+Qed.
+
+Theorem C13_Qmix_relisting : forall (U : Units R) (G : R -> R) (sps : list (species R)) (nd : list R) (nb : nat) (sigma : nat -> nat) (l s : nat) (T : R) (i j : nat),
+  (i < nb)%nat -> (j < nb)%nat ->
+  Qmix (RNumG G) U (map (fun k => nth (sigma k) sps (dummy_species 0)) (seq 0 nb)) (map (fun k => nth (sigma k) nd 0) (seq 0 nb)) l s T i j
+  = Qmix (RNumG G) U sps nd l s T (sigma i) (sigma j).
+Proof.
+  intros U G sps nd nb sigma l s T i j Hi Hj. unfold Qmix. cbn [nofZ RNumG].
+  rewrite !(nth_map_seq _ nb i _ Hi), !(nth_map_seq _ nb j _ Hj). reflexivity.
+Qed.
+Print Assumptions C13_Qmix_relisting.
